@@ -179,6 +179,8 @@ func VerifC12EnvelopeBinary()  { c12Envelope(Binary) }
 // c12Batching (lemma L3): the batching loop never lets the charged sizes of one batch exceed
 // freeBytes, keeps every metric exactly once and in order, and starts a new batch only at a
 // flush marker or when the next metric does not fit.
+var c12BucketSamples bool
+
 func c12Batching(k int) {
 	r, addr := vNew(Compact, 2*k+2, 1440, nil)
 	free := r.freeBytes
@@ -195,7 +197,12 @@ func c12Batching(k int) {
 		m := m3thrift.Metric{Name: names[i], Timestamp: 1}
 		m.Value.MetricType = m3thrift.MetricType_COUNTER
 		m.Value.Count = int64(i)
-		r.metCh <- sizedMetric{m: m, size: sizes[i], set: true}
+		sm := sizedMetric{m: m, size: sizes[i], set: true}
+		if c12BucketSamples {
+			// a histogram sample: process() appends its two bucket tags from a recycled slice
+			sm.bucket, sm.bucketID = "b-"+names[i], "000"+names[i][1:]
+		}
+		r.metCh <- sm
 	}
 	verifrt.Assert("c12.batching.close-ok", r.Close() == nil)
 	next := 0
@@ -207,6 +214,10 @@ func c12Batching(k int) {
 			verifrt.Assert("c12.batching.order-kept-nothing-dropped-or-duplicated", next < k && m.Name == names[next])
 			if next >= k {
 				break
+			}
+			if c12BucketSamples {
+				verifrt.Assert("c12.batching.sample-keeps-its-own-bucket-tags", tagsEqual(m.Tags, map[string]string{
+					"bucketid": "000" + names[next][1:], "bucket": "b-" + names[next]}))
 			}
 			if j == 0 && next > 0 {
 				// a new batch starts here: only at a marker or because this metric did not fit
@@ -226,7 +237,10 @@ func c12Batching(k int) {
 }
 
 func VerifC12Batching3() { c12Batching(3) }
-func VerifC12Batching5() { c12Batching(5) }
+
+// VerifC12BatchingBuckets: the same with histogram samples (bucket tags attached at send time).
+func VerifC12BatchingBuckets() { c12BucketSamples = true; c12Batching(4) }
+func VerifC12Batching5()       { c12Batching(5) }
 
 // VerifC12BatchingAfterSendError (L3 with a fault): the first batch fails to send; the metrics
 // queued afterwards must still go out in batches whose charged sizes fit, nothing twice.
